@@ -7,7 +7,7 @@
 (* PbExpressible - the harness never decides what a format can express.                                           *)
 EXTENDS Codec, Json, Randomization, SequencesExt
 
-CONSTANTS Component,      \* "lanelet" | "sign" | "light" | "intersection" | "obstacle" | "planning" | "header" | "numbers" | "mixed"
+CONSTANTS Component,      \* "lanelet" | "sign" | "light" | "intersection" | "obstacle" | "planning" | "header" | "numbers" | "mixed" | "mixedx"
           Precisions,     \* decimal precisions of the numbers component, e.g. {1, 4, 8, 12}
           NMixed          \* number of random mixed cases
 
@@ -288,14 +288,16 @@ NumDescs == {EmbedObst(o) : o \in NumObst} \cup {EmbedHdr(h) : h \in NumHdr} \cu
 
 (* mixed: every component drawn at random; lanelet 2 references sign 21 and light 31 so that any draw is well formed *)
 ReId(o, id) == [o EXCEPT !.id = id]
-OkObst == {o \in ObstaclePool : WellFormed(EmbedObst(o))}
+(* "mixed": any well-formed pool element; "mixedx": only elements the XML schema can express *)
+PoolOK(d) == WellFormed(d) /\ (Component = "mixedx" => XmlExpressible(d))
+OkObst == {o \in ObstaclePool : PoolOK(EmbedObst(o))}
 OkObstByRole == [r \in {"static", "dynamic"} |-> {o \in OkObst : o.role = r}]
-OkPP == {p \in PPPool : WellFormed(EmbedPP(p))}
-OkLanelet == {la \in LaneletPool : WellFormed(EmbedLanelet(la))}
-OkSign == {sc \in SignPool : WellFormed(EmbedSign(sc))}
-OkLight == {t \in LightPool : WellFormed(EmbedLight(t))}
-OkInter == {x \in InterPool : WellFormed(EmbedInter(x))}
-OkHdr == {h \in HeaderPool : WellFormed(EmbedHdr(h))}
+OkPP == {p \in PPPool : PoolOK(EmbedPP(p))}
+OkLanelet == {la \in LaneletPool : PoolOK(EmbedLanelet(la))}
+OkSign == {sc \in SignPool : PoolOK(EmbedSign(sc))}
+OkLight == {t \in LightPool : PoolOK(EmbedLight(t))}
+OkInter == {x \in InterPool : PoolOK(EmbedInter(x))}
+OkHdr == {h \in HeaderPool : PoolOK(EmbedHdr(h))}
 MixedDesc(i) ==
   LET sc == RandomElement(OkSign)
       l2 == [DefLanelet(2) EXCEPT !.signs = <<21>>, !.lights = <<31>>]
@@ -315,7 +317,7 @@ Cases ==
     [] Component = "intersection" -> {Case("intersection", 4, EmbedInter(x)) : x \in InterPool}
     [] Component = "header"       -> {Case("header", 4, EmbedHdr(h)) : h \in HeaderPool}
     [] Component = "numbers"      -> {Case("numbers", d, desc) : d \in Precisions, desc \in NumDescs}
-    [] Component = "mixed"        -> {Case("mixed", RandomElement(Precisions), MixedDesc(i)) : i \in 1..NMixed}
+    [] Component \in {"mixed", "mixedx"} -> {Case("mixed", RandomElement(Precisions), MixedDesc(i)) : i \in 1..NMixed}
 
 (* the pools are generous; WellFormed (constructor preconditions, quantifier text) is the gate *)
 Init == cs \in {c \in Cases : WellFormed(c.desc)}
